@@ -196,11 +196,9 @@ class FlipEnumParallel(ADEVPrimitive):
         (p_primal,) = Dual.tree_primal(dual_tree)
         (p_tangent,) = Dual.tree_tangent(dual_tree)
         sub_keys = jax.random.split(key, 2)
-        ret_primals, ret_tangents = jax.vmap(kdual)(
-            sub_keys,
-            (jnp.array([True, False]),),
-            (jnp.zeros_like(jnp.array([True, False]))),
-        )
+        bs = jnp.array([True, False])
+        ret = jax.vmap(kdual)(sub_keys, Dual(bs, jnp.zeros_like(bs)))
+        ret_primals, ret_tangents = ret.primal, ret.tangent
 
         def _inner(p, ret):
             return jnp.sum(jnp.array([p, 1 - p]) * ret)
